@@ -41,10 +41,15 @@ def gen_history(rng):
         if r < .35 or not ops:
             names = list(rng.choice(NAMESETS))
             chk = rng.choice(["A", "B", "C", "A", None])
+            prev = [o for o in ops if o[0] == "install"]
+            if prev and rng.random() < .35:
+                names, chk = list(prev[-1][1]), prev[-1][2]        # the very same hook installed once more (two independent handles)
             ops.append(["install", names, chk, nh, rng.random() < .5]); live.append(nh); nh += 1
         elif r < .55 and nh:
             hid = rng.choice(range(nh))        # possibly already uninstalled: must be harmless
             ops.append(["uninstall", hid, rng.choice(["uninstall", "exit"])])
+            if rng.random() < .3:
+                ops.append(["uninstall", hid, rng.choice(["uninstall", "exit"])])      # released twice
         else:
             ops.append(["import", rng.choice(MODULES)])
     ops.append(["import", rng.choice(MODULES)])
@@ -63,6 +68,9 @@ def gen_history(rng):
 
 
 CATALOGUE = [
+    # two install calls with the SAME names and checker; one handle is released twice (its `with` exit, then uninstall()): the other stays
+    [["install", ["foo"], "A", 0, True], ["install", ["foo"], "A", 1, True], ["import", "foo.a"], ["uninstall", 1, "exit"], ["uninstall", 1, "uninstall"], ["import", "foo.bar"], ["uninstall", 0, "uninstall"], ["import", "foo.bar.qux"]],
+    [["install", ["zed", "fo"], None, 0, True], ["install", ["zed", "fo"], None, 1, True], ["uninstall", 0, "uninstall"], ["uninstall", 0, "exit"], ["uninstall", 0, "uninstall"], ["import", "zed"], ["uninstall", 1, "exit"], ["import", "fo"]],
     [["install", ["addon", "addpkg"], "A", 0, True], ["import_missing", "addon"], ["import_missing", "addpkg.sub"], ["addpath"], ["import", "addon"], ["import", "addpkg.sub"], ["import", "foo"]],
     [["install", ["foo"], "B", 0, True], ["import_missing", "addon"], ["install", ["addon"], "A", 1, True], ["addpath"], ["import", "addon"], ["import_missing", "nosuchmodule"]],
     [["install", ["foo"], "A", 0, True], ["import", "foo"], ["import", "foobar"], ["import", "foo_bar"], ["import", "foo.bar.qux"], ["import", "fo"]],
